@@ -1,2 +1,75 @@
-From SV Require Import Convert.
-Theorem C17_placeholder : True. Proof. exact I. Qed.
+(* C17 - SSC to SM conversion applies the caller's policy to every SSC-only property.
+   Statements only.  Generic in the conversion tables regenerated from the code, hence valid for
+   every total or partial behaviour mapping at once. *)
+From Coq Require Import List ZArith NArith Bool.
+From SV Require Import Sx Str Omap Beat Simfile TimingSrc Convert Generated.Tables Proofs.ConvertFacts.
+Import ListNotations.
+Open Scope Z_scope.
+
+(* either every simfile property is treated by the behaviour of its kind, or the first offender is named;
+   never NotImplemented without warps, never a partial result *)
+Theorem C17_policy : forall sf charts tmpl_sf tmpl_chart beh, NoDupKeys sf -> ssc_has_warps sf = false ->
+  let base := fst (base_of Tables.blank_sm_simfile tmpl_sf) in
+  match ssc_to_sm sf charts tmpl_sf tmpl_chart beh with
+  | COk (out, cs) =>
+      forall k, get k out = match get k sf with
+                            | Some v => match decide Tables.invalid_sm_simfile beh k v with DCopy => Some v | _ => get k base end
+                            | None => get k base end
+  | CInvalid key =>
+      (exists pre v post, sf = pre ++ (key, v) :: post /\ decide Tables.invalid_sm_simfile beh key v = DError /\
+         forall k' v', List.In (k', v') pre -> decide Tables.invalid_sm_simfile beh k' v' = DCopy \/ decide Tables.invalid_sm_simfile beh k' v' = DSkip)
+      \/ (exists c v, List.In c charts /\ List.In (key, v) c /\ decide Tables.invalid_sm_chart beh key v = DError)
+  | CNotImpl => False
+  | _ => True
+  end.
+Proof. exact ssc_to_sm_policy. Qed.
+Print Assumptions C17_policy.
+
+Theorem C17_warps_refused : forall sf charts tmpl_sf tmpl_chart beh,
+  ssc_has_warps sf = true -> ssc_to_sm sf charts tmpl_sf tmpl_chart beh = CNotImpl.
+Proof. exact ssc_to_sm_warps_refused. Qed.
+Print Assumptions C17_warps_refused.
+
+(* the four behaviours, for a key listed under property type pt *)
+Theorem C17_behaviours : forall beh key v,
+  decide [] beh key v = DCopy /\
+  forall pt keys rest, mem_str key keys = true ->
+    let b := match zassoc pt beh with Some x => x | None => match zassoc pt Tables.default_behaviors with Some x => x | None => 4 end end in
+    decide ((pt, keys) :: rest) beh key v =
+      if b =? 1 then DCopy else if b =? 2 then DSkip
+      else if b =? 3 then match v with Some s => if str_eqb (strip s) (default_of key) then DSkip else DError | None => DUnmodelled end
+      else DError.
+Proof. intros beh key v. split; [reflexivity|]. intros pt keys rest H. simpl. rewrite H. reflexivity. Qed.
+Print Assumptions C17_behaviours.
+
+Theorem C17_documented_tables :
+  Tables.default_behaviors = [(1, 2); (2, 2); (3, 2); (4, 3); (5, 3)] /\
+  Tables.behaviors = [([67;79;80;89;95;65;78;89;87;65;89]%N, 1); ([73;71;78;79;82;69]%N, 2);
+                      ([69;82;82;79;82;95;85;78;76;69;83;83;95;68;69;70;65;85;76;84]%N, 3); ([69;82;82;79;82]%N, 4)] /\
+  map snd Tables.property_types = [1; 2; 3; 4; 5] /\ Tables.default_properties_default = [].
+Proof. exact documented_defaults. Qed.
+Print Assumptions C17_documented_tables.
+
+Theorem C17_simfile_level_never_keyerror : forall sf beh base,
+  copy_props Tables.invalid_sm_simfile beh None sf base <> CKeyError.
+Proof. exact ssc_to_sm_simfile_no_keyerror. Qed.
+Print Assumptions C17_simfile_level_never_keyerror.
+
+(* every SSC-only key of the blank SSC templates holds its default: what the round trip through sm_to_ssc relies on *)
+Definition ssc_only (inv : list (Z * list str)) (key : str) : bool := existsb (fun e => mem_str key (snd e)) inv.
+Theorem C17_blank_templates_hold_defaults :
+  forallb (fun kv => negb (ssc_only Tables.invalid_sm_simfile (fst kv)) ||
+                     match decide Tables.invalid_sm_simfile [(1, 3); (2, 3); (3, 3); (4, 3); (5, 3)] (fst kv) (snd kv) with DSkip => true | _ => str_eqb (fst kv) kVERSION end)
+          Tables.blank_ssc_simfile = true /\
+  forallb (fun kv => negb (ssc_only Tables.invalid_sm_chart (fst kv)) ||
+                     match decide Tables.invalid_sm_chart [(2, 3); (4, 3); (5, 3)] (fst kv) (snd kv) with DSkip => true | _ => false end)
+          Tables.blank_ssc_chart = true.
+Proof. vm_compute. split; reflexivity. Qed.
+
+Example C17_example :
+  let sf := [(kVERSION, Some [48;46;56;51]); (kBPMS, Some [48;61;49]); ([67;79;77;66;79;83], Some [32;48;46;48;48;48;61;49;10]);
+             ([83;80;69;69;68;83], Some [120])]%N in
+  ssc_to_sm sf [] None None [] = CInvalid [83;80;69;69;68;83]%N /\
+  match ssc_to_sm sf [] None None [(4, 2)] with COk (out, _) => negb (has [83;80;69;69;68;83]%N out) && negb (has kVERSION out) | _ => false end = true /\
+  match ssc_to_sm sf [] None None [(4, 1); (1, 1)] with COk (out, _) => has [83;80;69;69;68;83]%N out && has kVERSION out | _ => false end = true.
+Proof. vm_compute. repeat split; reflexivity. Qed.
